@@ -99,7 +99,20 @@ class Mp11 : public msm::backmp11::state_machine<Front, Config, Mp11<Front, Conf
 #define RT_BACK(Front, Hist) ::rt::Mp11<Front, ::rt::cfg_ct>
 #endif
 #ifndef RT_BACK_UP
-#define RT_BACK_UP(Front, Hist, Upper) RT_BACK(Front, Hist)
+// (not defined through RT_BACK: an expanded history argument may contain commas)
+#if CFG == 1
+#define RT_BACK_UP(Front, Hist, Upper) ::boost::msm::back::state_machine<Front, Hist>
+#elif CFG == 2
+#define RT_BACK_UP(Front, Hist, Upper) ::boost::msm::back::state_machine<Front, Hist, ::boost::msm::back::favor_compile_time>
+#elif CFG == 3
+#define RT_BACK_UP(Front, Hist, Upper) ::boost::msm::back::state_machine<Front, Hist, ::boost::msm::back::queue_container_circular>
+#elif CFG == 5
+#define RT_BACK_UP(Front, Hist, Upper) ::rt::Mp11<Front, ::rt::cfg_plain>
+#elif CFG == 6
+#define RT_BACK_UP(Front, Hist, Upper) ::rt::Mp11<Front, ::rt::cfg_fpa>
+#elif CFG == 7
+#define RT_BACK_UP(Front, Hist, Upper) ::rt::Mp11<Front, ::rt::cfg_ct>
+#endif
 #endif
 
 #if CFG <= 3
